@@ -20,9 +20,12 @@ type fileMetadata struct { //nolint:unused
 }
 
 func (s *fileMetadata) Save(state map[uint16]*models.CheckpointDocument, _ map[uint16]bool, _ string) error { //nolint:unused
-	file, _ := sonic.MarshalIndent(state, "", "  ")
-	_ = os.WriteFile(s.fileName, file, 0o644) //nolint:gosec
-	return nil
+	file, err := sonic.MarshalIndent(state, "", "  ")
+	if err != nil {
+		return err
+	}
+
+	return os.WriteFile(s.fileName, file, 0o644) //nolint:gosec
 }
 
 func (s *fileMetadata) Load(vbIds []uint16, bucketUUID string) (*wrapper.ConcurrentSwissMap[uint16, *models.CheckpointDocument], bool, error) { //nolint:lll,unused
